@@ -69,6 +69,24 @@ CLAIMS.update({
             '"promptly" for slices is only the per-slice statement above, not a bound over ticks.'),
 })
 
+CLAIMS.update({
+    'C11': ('RenetServer routing frame: send_message / receive_message / process_packet_from / get_packets_to_send / disconnect change at most connections[client_id] '
+            '(every other entry identical, domain unchanged, event queue unchanged) and apply the per-connection operation exactly once to that entry; the bodies of the '
+            'broadcast loops (rule D6) send to every visited client exactly once, except the excluded id, and never leave the loop early.',
+            'Assumed: D6 iteration protocol (values_mut/iter_mut visit each entry once); the per-connection operations are uninterpreted deterministic functions here. '
+            'Not decided: "never delays, drops or corrupts traffic of other clients" as a history statement; it reduces to the frame conditions plus ownership (type system).'),
+    'C12': ('RenetClient status setters never leave Disconnected and never change the first reason (set_connected, set_connecting, disconnect, disconnect_due_to_transport, '
+            'disconnect_with_reason: full frame: nothing but the status changes). RenetServer: ClientConnected{id} is queued only when id was absent, ClientDisconnected{id, reason} only when '
+            'present, with the stored first reason or Transport; get_event is FIFO; no other operation touches the id set or the queue; disconnect_all loop body keeps first reasons.',
+            'Not decided: early returns at the top of RenetClient::{process_packet, get_packets_to_send, send_message, receive_message} (generic Into<> parameters / out of reach); '
+            'the per-id alternation Connected, Disconnected, ... follows from the add/remove contracts by induction over calls (argument, not a checked obligation).'),
+    'C18': ('Client-side step contracts only (Kani, complete over any token value, any state, any timers below 2^40 s): update disconnects a connected client exactly when no packet arrived for more than '
+            'timeout_seconds, moves a timed-out connecting client to the next listed address or gives up, produces at most one packet per 250 ms; only a datagram that decoded refreshes '
+            'last_packet_received_time (forged/replayed packets do not postpone a timeout).',
+            'Not decided: everything phrased as eventually / within bounded time, the server side (update_client, pending expiry, set_max_clients) and the two-endpoint composition: '
+            'contracts are the wrong tool for that half.'),
+})
+
 NOT_APPLICABLE = {
     'C05': 'decided entirely inside NetcodeServer::handle_connection_request/process_packet_internal: Verus rejects their iterator/closure/borrowed-result style and Kani cannot instantiate NetcodeServer (HashMap field; measured).',
     'C10': 'connection-table invariant is maintained only by NetcodeServer handshake code, out of reach of both engines (measured); no leaf function carries part of it.',
